@@ -26,7 +26,8 @@ Definition run_C20 (i : term) : term :=
   let op := gs (gn i 0) in
   if String.eqb op "tempfile" then
     let k := Z.to_nat (gz (gn i 2)) in
-    TL [of_zs (smallest_free (S (List.length (gl (gn i 1)) + k)) 1 (gzs (gn i 1)) k); TZ 1]
+    (* a taken name is taken whatever the file behind it looks like: the kinds (gn i 3) play no role *)
+    TL [of_zs (smallest_free (S (List.length (gl (gn i 1)) + k)) 1 (gzs (gn i 1)) k); TZ 1; TZ 1]
   else if String.eqb op "options" then
     let init := gz (gn i 1) in
     let todo := dec_threads (gn i 2) in
@@ -37,7 +38,9 @@ Definition run_C20 (i : term) : term :=
     TL (map (fun a => let hex := gs (gn a 1) in
                       TL [TS ("fn_" ++ hex); TS ("file_" ++ hex); TZ (gz (gn a 0) mod 1000 + 1)]) (gl (gn i 2)))
   else if String.eqb op "once" then
-    TL (map (fun _ => TZ (gz (gn i 1))) (gl (gn i 2)))
+    (* once_computes_once: the body ran once -- on a failed first use its value is the error -- and
+       every later caller reads that one outcome *)
+    TL (map (fun _ => TZ (if gb (gn i 3) then -1 else gz (gn i 1))) (gl (gn i 2)))
   else if String.eqb op "settings" then
     let names := gss (gn i 1) in
     let keep := skipn (Z.to_nat (gz (gn i 2))) names in
@@ -63,6 +66,7 @@ Definition run_C20 (i : term) : term :=
     (* registry_never_loses_a_file: after the final cleanup (registry empty) no registered file is on
        disk; each file is registered once and removed once, so no os.Remove fails; no lock left held *)
     TL [TZ 0; TZ 0; TL []]
+  else if String.eqb op "cow1" then TZ 0   (* lost settings: get's lazy initialisation and update are single sections on one store *)
   else if String.eqb op "cow" then TZ 1
   else TL [TS "unknown-op"].
 
@@ -73,7 +77,7 @@ Definition eqv_C20 (i m o : term) : bool :=
 Definition spec_C20 (i o : term) : bool :=
   let op := gs (gn i 0) in
   if String.eqb op "tempfile" then
-    tempfile_spec (gzs (gn i 1)) (gzs (gn o 0)) (gb (gn o 1)) (gz (gn i 2))
+    tempfile_spec (gzs (gn i 1)) (gzs (gn o 0)) (gb (gn o 1)) (gz (gn i 2)) && gb (gn o 2)
   else if String.eqb op "options" then
     let init := gz (gn i 1) in
     let todo := dec_threads (gn i 2) in
@@ -85,6 +89,7 @@ Definition spec_C20 (i o : term) : bool :=
   else if String.eqb op "once" then term_eqb (run_C20 i) o      (* every caller sees the one base *)
   else if String.eqb op "settings" then term_eqb (run_C20 i) o  (* no lost update, no stray temp file *)
   else if String.eqb op "fetch" then term_eqb (run_C20 i) o
+  else if String.eqb op "cow1" then term_eqb (run_C20 i) o       (* a setting made during the first use is never lost *)
   else if String.eqb op "errpaths" then term_eqb (run_C20 i) o   (* rejected like one at a time, nothing blocked, no lock leaked *)
   else if String.eqb op "registry" then term_eqb (run_C20 i) o   (* no registered file leaked, no cleanup failed *)
   else if String.eqb op "fields" then term_eqb (run_C20 i) o     (* no lost update: every field holds what its owner wrote *)
